@@ -81,6 +81,7 @@ type workerSummary struct {
 	To                  uint64           `json:"to"`
 	StoppedAt           uint64           `json:"stopped_at"`
 	UnreproducibleRaces []string         `json:"unreproducible_races"`
+	Unreproducible      []string         `json:"unreproducible"`
 }
 
 var progress int64
@@ -296,8 +297,18 @@ func workerBatch(t *testing.T, a workerArgs) int {
 				continue
 			}
 			if hasClause(oc, v.Clause) == nil {
-				sum.Error = "violation " + v.Clause + " of run " + strconv.FormatUint(idx, 10) + " did not reproduce from its own tape (nondeterminism in the harness)"
-				break
+				// once more from the tape as recorded (not the minimised one)
+				rec = tp.Recorded()
+				rf.Minimised = false
+				oc = runOne(t, p, ReplayTape(rec), RunOpt{Tier: a.Tier, Full: true})
+			}
+			if hasClause(oc, v.Clause) == nil {
+				// the run depended on something that is not on the tape (state that earlier runs left behind in this
+				// process, or nondeterminism in the code under test): no replay file can be handed out for it. It is
+				// kept in the summary; the driver ends with exit 2 unless a replayable violation is found as well.
+				sum.Unreproducible = append(sum.Unreproducible, "violation "+v.Clause+" ("+v.Sig+") of run "+strconv.FormatUint(idx, 10)+" did not reproduce from its own tape")
+				delete(seenV, key)
+				continue
 			}
 			rf.Tape = tapeToMap(rec)
 			rf.Case = oc.Sample
